@@ -189,7 +189,7 @@ func TestC16(t *testing.T) {
 	s := explore.NewSuite(t, "C16", "exploration",
 		"(parse) every string of length <= L (5 quick, 6 thorough) over the 13-symbol alphabet {- % * ; : SP a B 1 CR LF U+212A U+017F} through header.ParseHeader: accepted rules must be legal (token name, no CR/LF in value), round-trip through String(), and strings of the strict rule grammar must be accepted with the documented meaning; "+
 			"(apply) every ordered list of <= 3 (quick) / 4 (thorough) rules from a 17-rule alphabet applied to each of 8 header maps (repeated fields, names differing only in case), with rule objects parsed afresh and with rule objects that were already applied to another message, compared step by step with a reference on a case-insensitive multimap; (concurrent-messages, Engine T) two messages processed at once, each by one of 6 rules, header/header.go rebuilt with a scheduling point before every statement, every interleaving with at most 2 (quick) / 3 (thorough) preemptions, each message compared with the result of its rule applied alone; "+
-			"(dispatch) every assignment of rule lists to --header/--connect-header/--response-header through the real modifier wiring of command/run x message kind; non-trivial = at least one comparison with the reference was made")
+			"(dispatch) every assignment of rule lists to --header/--connect-header/--response-header through the real modifier wiring of command/run x message kind; non-trivial = at least one comparison with the reference was made; (rules-through-the-flags, round 9) 1-2 rules {add, set-empty, remove} x names {Authorization, Proxy-Authorization, Cookie, Set-Cookie, X-Flag} given to --header / --connect-header / --response-header, parsed by package bind, {with, without} the configuration being described as runE does at start-up (3 describers), wired as the command wires them and applied: equal to the reference applied to the rules as written")
 	s.Assume = []string{"net/http.CanonicalHeaderKey is trusted", "header maps are Go http.Header values; order between differently-spelt keys of one name is not observable"}
 
 	// (parse)
